@@ -774,7 +774,7 @@ def _check_n_components(n_features, n_components):
   case"""
   if n_components is None:
     return n_features
-  if 0 < n_components <= n_features:
+  if 1 <= n_components <= n_features:
     return n_components
   raise ValueError('Invalid n_components, must be in [1, %d]' % n_features)
 
